@@ -43,10 +43,12 @@ type vxC15Cfg struct {
 	MinMax  bool   `json:"minMax"` // minPwm and maxPwm configured
 	// SingleStep: the configured pwmMap (when present) has a single entry {255: 255} instead of the README map
 	SingleStep bool `json:"singleStep,omitempty"`
+	// NoRpm: file/cmd fan without RPM source (no rpmPath / getRpm): its complete stored state is the PWM map alone
+	NoRpm bool `json:"noRpm,omitempty"`
 }
 
 func (c vxC15Cfg) String() string {
-	return fmt.Sprintf("%s confMap=%v minMax=%v singleStep=%v", c.Kind, c.ConfMap, c.MinMax, c.SingleStep)
+	return fmt.Sprintf("%s confMap=%v minMax=%v singleStep=%v noRpm=%v", c.Kind, c.ConfMap, c.MinMax, c.SingleStep, c.NoRpm)
 }
 
 type vxC15Case struct {
@@ -106,6 +108,9 @@ func vxC15NewWorld(cfg vxC15Cfg, fs *env.FS, scratch string) *vxC15World {
 		w.dev.Rpm = fs.Add("filefan/rpm", 0)
 		fs.F(w.dev.Rpm).OnRead = func() (int, error) { return fs.Val(w.dev.Pwm) * 10, nil }
 		w.fanYaml = fmt.Sprintf("    file:\n      path: %s\n      rpmPath: %s\n", w.dev.Pwm, w.dev.Rpm)
+		if cfg.NoRpm {
+			w.fanYaml = fmt.Sprintf("    file:\n      path: %s\n", w.dev.Pwm)
+		}
 	case "cmd":
 		w.cmdLog = filepath.Join(w.dir, "cmd.log")
 		w.cmdState = filepath.Join(w.dir, "pwm")
@@ -119,6 +124,9 @@ func vxC15NewWorld(cfg vxC15Cfg, fs *env.FS, scratch string) *vxC15World {
 		os.WriteFile(rpm, []byte(fmt.Sprintf("#!/bin/sh\necho $(( $(cat %s) * 10 ))\n", state)), 0755)
 		gosensors.VerifSetSpec(nil)
 		w.fanYaml = fmt.Sprintf("    cmd:\n      setPwm:\n        exec: %s\n        args: [\"%%pwm%%\"]\n      getPwm:\n        exec: %s\n      getRpm:\n        exec: %s\n", set, get, rpm)
+		if cfg.NoRpm {
+			w.fanYaml = fmt.Sprintf("    cmd:\n      setPwm:\n        exec: %s\n        args: [\"%%pwm%%\"]\n      getPwm:\n        exec: %s\n", set, get)
+		}
 	}
 	if cfg.Kind != "hwmon" {
 		gosensors.VerifSetSpec(nil)
@@ -430,7 +438,7 @@ func vxC15Run(t *testing.T, cfg vxC15Cfg, ops []string, fs *env.FS, scratch stri
 				bad(i, "C15 start failed", o.Err, o)
 				break
 			}
-			if m.HasCurve && (m.HasMap || w.confMap) && len(o.PreRegWrites) > 0 {
+			if (m.HasCurve || cfg.NoRpm) && (m.HasMap || w.confMap) && len(o.PreRegWrites) > 0 {
 				bad(i, "C15 start with stored characterisation still writes PWM before regulation ("+kindOf(o)+")", "both the RPM curve and the PWM map were stored (or the map is configured), yet the fan was driven before the first regulation cycle", o)
 			}
 			if w.confMap && o.Sweep {
@@ -470,13 +478,13 @@ func vxC15Run(t *testing.T, cfg vxC15Cfg, ops []string, fs *env.FS, scratch stri
 			if o.Err != "" {
 				bad(i, "C15 fan init failed", o.Err, o)
 			}
-			m = vxC15Model{HasCurve: true, HasMap: true}
+			m = vxC15Model{HasCurve: !cfg.NoRpm, HasMap: true} // without an RPM source `fan init` stores the PWM map only
 		}
 		hc, hm, _ := vxDbState(w.dbPath)
 		if op == "reset" && (hc || hm) {
 			bad(i, "C15 fan reset left stored data behind", fmt.Sprintf("hasCurve=%v hasMap=%v", hc, hm), o)
 		}
-		if (op == "start" || op == "start-locked" || op == "init") && o.Err == "" && (!hc || (!hm && !w.confMap)) {
+		if (op == "start" || op == "start-locked" || op == "init") && o.Err == "" && ((!hc && !(op == "init" && cfg.NoRpm)) || (!hm && !w.confMap)) {
 			bad(i, "C15 characterisation not stored after "+op, fmt.Sprintf("hasCurve=%v hasMap=%v", hc, hm), o)
 		}
 		if (op == "reset-other" || op == "togglemap") && (hc != m.HasCurve || (m.HasMap && !hm)) {
@@ -531,6 +539,9 @@ func TestVX_C15(t *testing.T) {
 					continue
 				}
 				cfgs = append(cfgs, vxC15Cfg{Kind: k, ConfMap: cm, MinMax: mm})
+				if k != "hwmon" && !mm && (k == "file" || !cm) {
+					cfgs = append(cfgs, vxC15Cfg{Kind: k, ConfMap: cm, MinMax: mm, NoRpm: true})
+				}
 				if k == "hwmon" && !mm {
 					// a fan with a single distinct PWM step (one-entry pwmMap; toggled in by 'togglemap' when cm is false)
 					cfgs = append(cfgs, vxC15Cfg{Kind: k, ConfMap: cm, MinMax: mm, SingleStep: true})
